@@ -770,7 +770,8 @@ def oracle_fit_structure(mon, a0, b0, fl_rfi, fl_mef, out):
     fin = np.isfinite(bm) & np.isfinite(y)
     tolv = 1e-12 * np.maximum(np.abs(y), params[2])
     mon.chk(bool(np.all(np.abs(bm[fin] - (y[fin] - params[2])) <= tolv[fin] + 1e-300)), 'fit:beads-model-identity', **d)
-    ok = np.array_equal(np.asarray(fl_rfi, dtype=float), a0) and np.array_equal(np.asarray(fl_mef, dtype=float), b0)
+    ok = np.array_equal(np.asarray(fl_rfi, dtype=float), a0, equal_nan=True) and \
+        np.array_equal(np.asarray(fl_mef, dtype=float), b0, equal_nan=True)
     mon.chk(ok, 'fit:input-mutated', **d)
 
 
